@@ -521,7 +521,7 @@ def work(unit):
 def main(tier, seed):
     rep = run.Report('C18', tier, seed, TECHNIQUE)
     cap = 200 if tier == 'quick' else 3000
-    depth = 2 if tier == 'quick' else 3
+    depth = 3 if tier == 'quick' else 4
     units = [('grid',), ('golden',)]
     for st in CONFIGS:
         for ch in range(3):
